@@ -96,31 +96,50 @@ theorem children_eq (t : Tile) (ht : V t) :
   rw [shl32_one (by omega), shl32_one (by omega), add32_eq (by omega), add32_eq (by omega),
     add32_eq (by omega)]
 
+/-- For EVERY tile of the quantifier (zoom 0..30, zoom 30 included): the children are in range for
+    their own zoom `t.z + 1 ≤ 31` (so `Valid()` accepts them), one level down, with parent `t`.
+    (`V c` itself would ask for `c.z ≤ 30` and exclude the children of zoom-30 tiles.) -/
+theorem children_valid_parent_all' (t : Tile) (ht : V t) :
+    ∀ c ∈ children t, (c.x < 2 ^ c.z ∧ c.y < 2 ^ c.z ∧ c.z ≤ 31) ∧ valid c = true ∧
+      c.z = t.z + 1 ∧ parent c = t := by
+  have key : ∀ c ∈ children t, (c.x < 2 ^ c.z ∧ c.y < 2 ^ c.z ∧ c.z ≤ 31) ∧
+      c.z = t.z + 1 ∧ parent c = t := by
+    rw [children_eq t ht]
+    cases t with
+    | mk x y z =>
+    obtain ⟨hx, hy, hz⟩ := ht
+    simp only at hx hy hz
+    have hp : (2:Nat) ^ (z + 1) = 2 ^ z * 2 := Nat.pow_succ _ _
+    intro c hc
+    simp only [List.mem_cons, List.not_mem_nil, or_false] at hc
+    rcases hc with rfl | rfl | rfl | rfl <;>
+    · refine ⟨⟨?_, ?_, ?_⟩, rfl, ?_⟩
+      · simp only; omega
+      · simp only; omega
+      · simp only; omega
+      · rw [parent_eq _ (by simp) (by simp only; omega)]
+        simp only [Nat.add_sub_cancel, Tile.mk.injEq, and_true]
+        omega
+  intro c hc
+  obtain ⟨hv, hcz, hpar⟩ := key c hc
+  exact ⟨hv, (valid_iff' c hv.2.2).mpr ⟨hv.1, hv.2.1⟩, hcz, hpar⟩
+
+/-- Corollary (also used by C14): children of a tile below zoom 30 are again in the quantifier. -/
 theorem children_valid_parent' (t : Tile) (ht : V t) (hz : t.z < 30) :
     ∀ c ∈ children t, V c ∧ c.z = t.z + 1 ∧ parent c = t := by
-  rw [children_eq t ht]
-  cases t with
-  | mk x y z =>
-  obtain ⟨hx, hy, _⟩ := ht
-  simp only at hx hy hz
-  have hp : (2:Nat) ^ (z + 1) = 2 ^ z * 2 := Nat.pow_succ _ _
   intro c hc
-  simp only [List.mem_cons, List.not_mem_nil, or_false] at hc
-  rcases hc with rfl | rfl | rfl | rfl <;>
-  · refine ⟨⟨?_, ?_, ?_⟩, rfl, ?_⟩
-    · simp only; omega
-    · simp only; omega
-    · simp only; omega
-    · rw [parent_eq _ (by simp) (by simp only; omega)]
-      simp only [Nat.add_sub_cancel, Tile.mk.injEq, and_true]
-      omega
+  obtain ⟨⟨hx, hy, _⟩, _, hcz, hp⟩ := children_valid_parent_all' t ht c hc
+  exact ⟨⟨hx, hy, by omega⟩, hcz, hp⟩
 
 theorem children_distinct' (t : Tile) (ht : V t) : (children t).Nodup := by
   rw [children_eq t ht]
   simp [List.Nodup]
 
-theorem children_complete' (t c : Tile) (ht : V t) (hz : t.z < 30) (hc : V c) (hcz : c.z = t.z + 1)
+/-- Completeness, for every tile of the quantifier (zoom 30 included) and with NO validity hypothesis
+    on `c`: whatever is one level down with parent `t` is one of the four. -/
+theorem children_complete_all' (t c : Tile) (ht : V t) (hcz : c.z = t.z + 1)
     (hp : parent c = t) : c ∈ children t := by
+  have hz30 : t.z ≤ 30 := ht.2.2
   rw [children_eq t ht]
   rw [parent_eq c (by omega) (by omega)] at hp
   subst hp
@@ -129,6 +148,10 @@ theorem children_complete' (t c : Tile) (ht : V t) (hz : t.z < 30) (hc : V c) (h
   simp only at hcz
   simp only [List.mem_cons, List.not_mem_nil, or_false, Tile.mk.injEq]
   omega
+
+/-- The former, weaker form (also used by C14). -/
+theorem children_complete' (t c : Tile) (ht : V t) (_hz : t.z < 30) (_hc : V c) (hcz : c.z = t.z + 1)
+    (hp : parent c = t) : c ∈ children t := children_complete_all' t c ht hcz hp
 
 theorem toZoom_up (t : Tile) (z : Nat) (h : z ≤ t.z) (ht : t.z < 2 ^ 32) :
     toZoom t z = ancestorAt t (t.z - z) := by
